@@ -161,7 +161,7 @@ class ImplicitMFScorer(ALSBase):
 @torch.jit.script
 def _implicit_otor(other: torch.Tensor, reg: float) -> torch.Tensor:
     nf = other.shape[1]
-    regmat = torch.eye(nf)
+    regmat = torch.eye(nf, dtype=other.dtype, device=other.device)
     regmat *= reg
     Ot = other.T
     OtO = Ot @ other
